@@ -59,8 +59,8 @@ PROPS = {
         explore=ce.explore_c18,
     ),
     "C05": dict(
-        modules=["JPV.Props.C05", "JPV.Props.C03"],
-        theorems=["JPV.Props.C05_iff", "JPV.Props.C05_sound", "JPV.Props.C05_invalid_rejected", "JPV.Props.C03", "JPV.Props.C03_disputed", "JPV.Props.C05_partial", "JPV.Props.C05_arg_rule"],
+        modules=["JPV.Props.C05", "JPV.Props.C03", "JPV.Props.Abnf"],
+        theorems=["JPV.Props.C05_abnf_iff", "JPV.Proofs.recogniser_accepts_complete", "JPV.Proofs.abnf_unambiguous", "JPV.Proofs.abnf_flag_ambiguous", "JPV.Props.C05_iff", "JPV.Props.C05_sound", "JPV.Props.C05_invalid_rejected", "JPV.Props.C03", "JPV.Props.C03_disputed", "JPV.Props.C05_partial", "JPV.Props.C05_arg_rule"],
         tables=[T + "builtin_sigs_model", T + "env_defaults_model", T + "token_map_model",
                 T + "function_argument_map_model", T + "exceptions_model"],
         explore=ct.explore_c05,
@@ -119,15 +119,15 @@ PROPS = {
         explore=ct.explore_c13,
     ),
     "C03": dict(
-        modules=["JPV.Props.C03", "JPV.Props.C09", "JPV.Props.C13", "JPV.Props.C12"],
-        theorems=["JPV.Props.C03", "JPV.Props.C03_disputed", "JPV.Props.C05_iff", "JPV.Props.C03_kwfree", "JPV.Props.C03_builtin", "JPV.Props.C03_structural", "JPV.Props.C12_filter_partial", "JPV.Props.C09", "JPV.Props.C13_lex", "JPV.Props.C13_token_shapes"],
+        modules=["JPV.Props.C03", "JPV.Props.C09", "JPV.Props.C13", "JPV.Props.C12", "JPV.Props.Abnf"],
+        theorems=["JPV.Props.C03_abnf", "JPV.Props.C03_abnf_loose", "JPV.Proofs.recogniser_valid_complete", "JPV.Proofs.recogniser_valid_sound", "JPV.Props.C03", "JPV.Props.C03_disputed", "JPV.Props.C05_iff", "JPV.Props.C03_kwfree", "JPV.Props.C03_builtin", "JPV.Props.C03_structural", "JPV.Props.C12_filter_partial", "JPV.Props.C09", "JPV.Props.C13_lex", "JPV.Props.C13_token_shapes"],
         tables=[T + "regexes_model", T + "escapes_model", T + "token_map_model", T + "function_argument_map_model",
                 T + "precedences_model", T + "binary_operators_model", T + "builtin_sigs_model", T + "env_defaults_model"],
         explore=ct.explore_c03,
     ),
     "C04": dict(
-        modules=["JPV.Props.C04", "JPV.Props.C03", "JPV.Props.C09", "JPV.Props.C05", "JPV.Props.C13"],
-        theorems=["JPV.Props.C04", "JPV.Props.C04_reject", "JPV.Props.C05_iff", "JPV.Props.C04_structural", "JPV.Props.C04_structural_reject", "JPV.Props.C03_C04_structural_iff",
+        modules=["JPV.Props.C04", "JPV.Props.C03", "JPV.Props.C09", "JPV.Props.C05", "JPV.Props.C13", "JPV.Props.Abnf"],
+        theorems=["JPV.Props.C04_abnf", "JPV.Props.C04_abnf_reject", "JPV.Props.C05_abnf_iff", "JPV.Proofs.recogniser_accepts_sound", "JPV.Proofs.recogniser_invalid_iff", "JPV.Props.C04", "JPV.Props.C04_reject", "JPV.Props.C05_iff", "JPV.Props.C04_structural", "JPV.Props.C04_structural_reject", "JPV.Props.C03_C04_structural_iff",
                   "JPV.Props.C13_compile", "JPV.Props.C09", "JPV.Props.C05_partial", "JPV.Props.C13_token_shapes", "JPV.Props.C13_lex"],
         tables=[T + "regexes_model", T + "escapes_model", T + "token_map_model", T + "function_argument_map_model",
                 T + "precedences_model", T + "binary_operators_model", T + "comparison_operators_model"],
@@ -149,7 +149,8 @@ PROPS = {
     ),
     "C11": dict(
         modules=["JPV.Props.C11"],
-        theorems=["JPV.Props.C11_logic", "JPV.Props.C11_translation", "JPV.Props.C11_semantics"],
+        theorems=["JPV.Props.C11_logic", "JPV.Props.C11_translation", "JPV.Props.C11_semantics", "JPV.Props.C11_grammar", "JPV.Props.C11_grammar_unambiguous",
+                  "JPV.Props.C11_translation_abnf", "JPV.Props.C11_semantics_abnf"],
         tables=[T + "re_calls_model", T + "builtin_sigs_model"],
         explore=cr.explore_c11,
     ),
